@@ -76,6 +76,15 @@ __CPROVER_ensures (g_store_calls == 1 && g_stored_hash == KEY (marker_str)) /*@C
 __CPROVER_ensures (g_stored_m32 == LE32 (marker_str) && g_stored_id_size == (unsigned) g_len) /*@C13.stored_marker_and_id_size*/
 ;
 
+/* chunks recorded by the header parsers under their four character code: the key is the marker word itself, i.e. the
+** key KEY (s) of the identifier string s whose four bytes are that word */
+uint32_t vin_marker ;
+int psf_store_read_chunk_u32 (READ_CHUNKS * pchk, uint32_t marker, sf_count_t offset, uint32_t len)
+__CPROVER_requires (__CPROVER_is_fresh (pchk, sizeof (*pchk)) && g_store_calls == 0 && marker == vin_marker)
+__CPROVER_assigns (g_stored_hash, g_stored_m32, g_stored_id_size, g_store_calls)
+__CPROVER_ensures (g_store_calls == 1 && g_stored_hash == (uint64_t) vin_marker && g_stored_m32 == vin_marker && g_stored_id_size == 4) /*@C13.four_character_chunks_are_keyed_by_their_marker_word*/
+;
+
 int psf_find_read_chunk_str (const READ_CHUNKS * pchk, const char * marker_str)
 __CPROVER_requires (__CPROVER_is_fresh (pchk, sizeof (*pchk)) && RCHUNKS_WF (pchk) && STR_OK (marker_str))
 __CPROVER_assigns ()
@@ -108,6 +117,12 @@ void h_store_str (void)
 	g_len = nd ; g_str_hash = hnd ; g_store_calls = 0 ;
 	psf_store_read_chunk_str (pchk, s, off, len) ;
 	REACH (g_len > 4, "long identifier") ; REACH (g_len == 3, "three character identifier") ;
+	CANARY () ;
+}
+void h_store_u32 (void)
+{	READ_CHUNKS *pchk ; uint32_t m ; sf_count_t off ; uint32_t len ; uint32_t nd ;
+	vin_marker = nd ; g_store_calls = 0 ;
+	psf_store_read_chunk_u32 (pchk, m, off, len) ;
 	CANARY () ;
 }
 void h_find_str (void)
